@@ -269,7 +269,7 @@ def run_design(keys, tier):
 
 def run_snap_property(prop, tier, cfg, plans, rule, classify=None, second_process=False, min_valid_frac=0.0,
                       extra_cov=None, assumptions=None, extra_lines=None, post=None, real_plans=None, real_cfg=None, require_repro=False,
-                      design=("snap",), steps_plans=None, steps_cfg=None):
+                      design=("snap",), steps_plans=None, steps_cfg=None, codesnap=False):
     t0 = time.time()
     v = vlib.Verdict(prop)
     design_done = run_design(design, tier)
@@ -335,6 +335,15 @@ def run_snap_property(prop, tier, cfg, plans, rule, classify=None, second_proces
         cov["states"] += sres["states"]
         cov["transitions"] += sres["transitions"]
         cov["traces_validated_against_impl"] += len(slines)
+    if codesnap:
+        ncs, csbad = codesnap_mismatches(lines)
+        cov["codesnap_records"] = ncs
+        cov["codesnap_mismatches"] = len(csbad)
+        cov["traces_validated_against_impl"] += ncs
+        if csbad and not v.violations:
+            raise Broken("the real SnapPolygon differs from CodeSnap.tla (the composed transcription of the pinned post-processing) on %d "
+                         "record(s), e.g. %s: the design results do not transfer to this code, and no violation of %s was found"
+                         % (len(csbad), csbad[0][:600], prop))
     cov["design_models"] = design_done
     cov["states"] += sum(d["states"] for d in design_done)
     cov["transitions"] += sum(d["transitions"] for d in design_done)
@@ -348,6 +357,49 @@ def run_snap_property(prop, tier, cfg, plans, rule, classify=None, second_proces
                             "synthetic dyadic grids: inputs and outputs project exactly onto the lattice (asserted per record)",
                             "the routed boundary is computed by TLC from the input (Grid!Route), not taken from the code"])
     return rc
+
+
+def codesnap_mismatches(lines, max_report=5):
+    """CodeSnap.tla: the composed transcription of addPointsAndSnap (routing, hit bookkeeping, cleanupNewRing, Dedupe, SplitRing,
+    level dropping, Assemble, flags) evaluated by TLC on every recorded call; returns (number of records checked, list of records on
+    which the real result is not what the transcription of the pinned code computes)."""
+    import re
+    lines = [x for x in lines if '"step"' not in x[:40]]
+    chunks = [lines[i::4] for i in range(4)] if len(lines) >= 400 else [lines]
+    bad = []
+
+    def one(ch):
+        ch = list(ch)
+        out = []
+        while ch and len(out) < max_report:
+            r = vlib.run_tlc("CodeSnap", "CodeSnap.cfg", data={"snap_trace.ndjson": "\n".join(ch) + "\n"}, timeout=7200, heap="5g",
+                             workers=4 if len(chunks) > 1 else 16, want_vecs=False)
+            if r.ok:
+                break
+            if not r.violated:
+                raise Broken("CodeSnap: %s\n%s" % (r.error, r.out[-2000:]))
+            m = re.findall(r"l = (\d+)", r.trace_text)
+            if not m:
+                raise Broken("CodeSnap: cannot locate the failing record\n" + r.out[-1500:])
+            idx = int(m[-1]) - 1
+            out.append(ch[idx])
+            del ch[idx]
+        return out
+    with concurrent.futures.ThreadPoolExecutor(max_workers=len(chunks)) as ex:
+        for o in ex.map(one, chunks):
+            bad += o
+    return len(lines), bad
+
+
+def codesnap_agrees(rec):
+    """Is the recorded result exactly what the transcription of the pinned code returns for this input? (part of the keys of the
+    known findings F5 and F13: a known defect of the pinned code is only recognised where the code still behaves as it did)"""
+    r = vlib.run_tlc("CodeSnap", "CodeSnap.cfg", data={"snap_trace.ndjson": json.dumps(rec) + "\n"}, timeout=1800, workers=2, want_vecs=False)
+    if r.ok:
+        return True
+    if r.violated:
+        return False
+    raise Broken("CodeSnap: %s" % r.error)
 
 
 def replay_snap(path):
